@@ -223,10 +223,21 @@ func CheckCase(c Case) *ev.Violation {
 		r, _ := gen.Build(gen.Script{Ops: c.Script.Ops[:k]})
 		return targetWrap(r, c.Target).Render()
 	}
+	var foreign tabular.Table
 	stepCmp := func(k int) {
 		if stepViolation != nil {
 			return
 		}
+		defer func() {
+			// between two renders of the long-lived wrapper somebody else walks the table too: another renderer, or a bare callback pass
+			if foreign != nil {
+				if k%2 == 0 {
+					csv.Wrap(foreign).RenderTo(io.Discard)
+				} else {
+					foreign.InvokeRenderCallbacks()
+				}
+			}
+		}()
 		o, e := long.Render()
 		wo, we := refAt(k)
 		if (e != nil) != (we != nil) || o != wo {
@@ -238,6 +249,7 @@ func CheckCase(c Case) *ev.Violation {
 		for i, op := range c.Script.Ops {
 			if c.Pre > 0 && i == c.Pre-1 {
 				long = targetWrap(on, c.Target)
+				foreign = on
 				stepCmp(i)
 			}
 			m.Step(on, op)
@@ -247,6 +259,7 @@ func CheckCase(c Case) *ev.Violation {
 		}
 		if c.Pre > 0 && long == nil {
 			long = targetWrap(on, c.Target)
+			foreign = on
 			stepCmp(len(c.Script.Ops))
 		}
 	}
